@@ -27,7 +27,7 @@ ANCHORS = ["goose/interface.py:LieselInterface.update_state", "goose/interface.p
 ASSUMPTIONS = ["only settable keys (strong variables / Value nodes) are used as position keys",
                "states passed in are fully up to date, as update_state's docstring requires"]
 WORKERS = 16
-TIMEOUT = {"quick": 900, "thorough": 3600}
+TIMEOUT = {"quick": 1500, "thorough": 10800}
 
 
 def state_bytes(st):
